@@ -70,6 +70,7 @@ DEFAULT_CFG = {
     "latency": LATENCY,
     "c_supported": None,
     "s_supported": None,
+    "tickets": None,          # {"client": [], "server": {}} session-ticket store shared between worlds
     "c_max_streams": None,    # (bidi, uni) stream-count limits advertised by the client
     "s_max_streams": None,
 }
@@ -338,7 +339,13 @@ class NetSim:
     def start(self):
         c = self.ep["c"]
         self._mk_logs(c, self.c_cfg)
-        c.conn = QuicConnection(configuration=self.c_cfg)
+        tk = self.cfg.get("tickets")
+        if tk is not None:
+            if tk["client"]:
+                self.c_cfg.session_ticket = tk["client"][-1]
+            c.conn = QuicConnection(configuration=self.c_cfg, session_ticket_handler=tk["client"].append)
+        else:
+            c.conn = QuicConnection(configuration=self.c_cfg)
         self._apply_stream_limits(c.conn, self.cfg["c_max_streams"])
         self.api(c, "connect", lambda: c.conn.connect(S_ADDR, now=self.now))
 
@@ -542,9 +549,14 @@ class NetSim:
             retry_scid = self.retry_scid
         s = self.ep["s"]
         self._mk_logs(s, self.s_cfg)
+        tk = self.cfg.get("tickets")
+        kw = {}
+        if tk is not None:
+            kw = {"session_ticket_fetcher": lambda label: tk["server"].pop(label, None),
+                  "session_ticket_handler": lambda t: tk["server"].__setitem__(t.ticket, t)}
         s.conn = QuicConnection(configuration=self.s_cfg,
                                 original_destination_connection_id=odcid,
-                                retry_source_connection_id=retry_scid)
+                                retry_source_connection_id=retry_scid, **kw)
         self._apply_stream_limits(s.conn, self.cfg["s_max_streams"])
         self.log("server_created", d.id)
         return False
